@@ -214,7 +214,7 @@ struct BpOpts {
   bool full_hint_modes = true;
   bool any_tps = true;
   bool allow_empty_cp = true;
-  std::vector<uint64_t> max_items = {0, 1, 2, 3, 5, 7, 40, 10000};
+  std::vector<uint64_t> max_items = {0, 1, 2, 3, 5, 7, 40, 10000, 0x100000000ull, 0x100000002ull, 0xFFFFFFFFFFFFFFFFull};   // incl. values that do not fit 32 bits
 };
 inline model::BlockP gen_bp(Chooser& c, const BpOpts& o) {
   model::BlockP b;
